@@ -106,9 +106,23 @@ def eval_library(cfg):
         Hm = code.stabilizer_matrix
         H = gf2.matrix_rows(Hm)
     except Exception as exc:
-        # C01 owns "cannot be constructed"; here it only means nothing to compare
+        # C01 owns "cannot be constructed"; here it only means nothing to compare -- unless the object exists and
+        # its own lattice definition names a site outside its qubit set (then the matrix cannot be its image)
         res['skipped'] = 1
         res['extra']['construction_failed'] = 1
+        try:
+            code2 = F.build(cfg)
+            qs = set(tuple(q) for q in code2.qubit_coordinates)
+            for loc in code2.stabilizer_coordinates:
+                outside = [list(q) for q in code2.get_stabilizer(loc) if tuple(q) not in qs]
+                if outside:
+                    res['skipped'] = 0
+                    res['evals'] = res.get('evals', 0) + 1
+                    bad('stabilizer-support-outside-qubit-set', stabilizer=list(loc),
+                        sites=outside[:4], exc=type(exc).__name__)
+                    break
+        except Exception:
+            pass
         return res
     m = len(sc)
     if len(set(qc)) != len(qc):
